@@ -7,5 +7,5 @@ def run(tier):
         "all nestings to depth D of the conditional / match / if-set / block / module / four loop forms inside a "
         "function called with a value of every member type of its union parameter, break/continue/return at every "
         "leaf (at depth >= 2 one of the two sub-positions is a leaf); distinct by source text; compared: "
-        "the four call results and the marker log",
-        ["quick: every 3rd body of depth 2; thorough: all of depth 2 and a sample of depth 3"], extra_thorough=("c12deep",), gen=3000)
+        "the four call results and the marker log; second suite: run-time type tests (if-set / while-set / match type arms, also after value arms) over 27 test types x 30 values reaching the test through an any-typed parameter, each test instruction called with the whole history of values forwards and backwards",
+        ["quick: every 3rd body of depth 2; thorough: all of depth 2 and a sample of depth 3"], extra_thorough=("c12deep",), gen=3000, extra_always=("c12t",))
